@@ -78,8 +78,20 @@ def bounded(tier, seed):
 		pool = rnd.sample(range(0, 2 ** 15), 40)
 		A, B, C = [rnd.sample(pool, rnd.randrange(0, 30)) for _ in range(3)]
 		run({'kind': 'triple', 'A': A, 'B': B, 'C': C, 'dts': [rnd.choice(DT) for _ in range(3)]})
+	# sets that are disjoint as integers but coincide modulo a narrower width (each array stored in the narrowest dtype that holds it)
+	fit = lambda vals, signed: next(d for d, hi in ((('i2', 2 ** 15), ('i4', 2 ** 31), ('i8', 2 ** 63)) if signed else (('u2', 2 ** 16), ('u4', 2 ** 32), ('u8', 2 ** 64))) if all(v < hi for v in vals))
+	for _ in range(150 if tier == 'quick' else 2000):
+		base = rnd.sample(range(0, 2 ** 15), rnd.randrange(1, 6))
+		shift = rnd.choice([2 ** 16, 2 ** 32, 2 ** 16 + 2 ** 32, 2 ** 15, 2 ** 31])
+		A = list(base)
+		B = [v + shift for v in rnd.sample(base, rnd.randrange(1, len(base) + 1))] + rnd.sample(base, rnd.randrange(0, len(base) + 1))[:rnd.randrange(0, 3)]
+		C = [v + rnd.choice([0, shift, 2 * shift]) for v in rnd.sample(base, rnd.randrange(1, len(base) + 1))] + [rnd.randrange(2 ** 33)]
+		sg = rnd.random() < .3
+		sets = [A, B, C]
+		rnd.shuffle(sets)
+		run({'kind': 'triple', 'A': sets[0], 'B': sets[1], 'C': sets[2], 'dts': [fit(x, sg) for x in sets]})
 	for _ in range(40 if tier == 'quick' else 400):
 		u = rnd.randrange(1, 2 ** 14)
 		run({'kind': 'decrease', 's': rnd.randrange(0, u + 1), 'u': u})
-	return {'tool': 'metric axioms on the real jaccarddist', 'bound': f'all triples of subsets of a {U}-element universe with random dtypes; random sets; strict decrease for |A or B| < 2^14',
+	return {'tool': 'metric axioms on the real jaccarddist', 'bound': f'all triples of subsets of a {U}-element universe with random dtypes; random sets; sets aliasing modulo 2^15/2^16/2^31/2^32 stored in their narrowest dtypes; strict decrease for |A or B| < 2^14',
 	        'cases': n, 'failures': failures[:5], 'samples': sample}
